@@ -15,7 +15,7 @@
 From PdfV Require Import Base.Prelude Gen.Generated Lex.Lexer
   Safety.Front Safety.FrontProofs Safety.Numeric Safety.NumericProofs Safety.Walks Safety.WalksProofs Safety.Imported.
 From PdfV Require Codec.Model Codec.Dispatch Codec.Pairing Codec.ChainProofs ObjStm.Model ObjStm.Proofs XRef.Model XRef.StreamProofs
-  Font.Model Font.WidthProofs PageTree.Model PageTree.Proofs Crypt.Model Import.Model Import.Theorems Cache.Tables.
+  Font.Model Font.WidthProofs PageTree.Model PageTree.Proofs Crypt.Model Crypt.SafeProofs Import.Model Import.Theorems Cache.Tables.
 
 (** the full claim for the numeric sites of this area; false of the code as it is (fax geometry, C14-j) *)
 Definition C14_full_statement : Prop :=
@@ -118,11 +118,14 @@ Proof. exact @Font.WidthProofs.type0_no_panic. Qed.
 Print Assumptions C14_type0.
 
 (** crypt key length (crypt.rs: Decoder::from_password; Crypt/Model.v, C06's check; fix 9e4f745 — the former C14-d):
-    revisions 2-4 with ANY /V, /Length, crypt filter /Length: a value or an error (MD5 returns 16 bytes) *)
-Theorem C14_crypt_key_length : forall md5, (forall x, exists h, md5 x = Ok h /\ length h = 16%nat) ->
-  forall sha256 sha384 sha512 aes_enc aes_dec prep fuel d id pass, Crypt.Model.d_r d <= 4 ->
-  never_crashes (Crypt.Model.from_password md5 sha256 sha384 sha512 aes_enc aes_dec prep fuel d id pass).
-Proof. exact from_password_r234_total. Qed.
+    EVERY revision with ANY /V, /Length, crypt filter /Length, /U /O /UE /OE of any length: never a panic (MD5 returns 16
+    bytes) — the Crypt area's theorem C06_no_panic, about the code as repaired by 628eebc and f9fb306 *)
+Theorem C14_crypt_key_length : forall MD5 SHA256 SHA384 SHA512 AESE AESD PREP, (forall x, length (MD5 x) = 16%nat) ->
+  forall fuel d id0 pass s,
+  Crypt.Model.from_password (fun x => Ok (MD5 x)) (fun x => Ok (SHA256 x)) (fun x => Ok (SHA384 x)) (fun x => Ok (SHA512 x))
+                (fun k iv x => Ok (AESE k iv x)) (fun k iv x => Ok (AESD k iv x)) (fun x => Ok (PREP x)) fuel d id0 pass
+  <> Panic s.
+Proof. exact Crypt.SafeProofs.from_password_no_panic. Qed.
 Print Assumptions C14_crypt_key_length.
 
 (** page tree (types.rs: PageTree::page_limited, File::get_page; PageTree/Model.v, C07's check; fix 02e5245 — the former
